@@ -51,7 +51,7 @@ func run(args []string) {
 		delete(a, "samples")
 	}
 	if *only != "A" {
-		budget := 150 * time.Second
+		budget := 6 * time.Minute
 		if tier == "thorough" {
 			budget = 14 * time.Minute
 		}
